@@ -35,6 +35,9 @@ class OraclePolicy:
     def next(self, elapsed_time: float, attempts: int, error: Exception, seed: int | None = None) -> float | None:
         r = self.rng.random()
         delay: float | None
+        if r < 0.04:
+            self.log.append((self.step, elapsed_time, attempts, error, "RAISE"))
+            raise RuntimeError("policy bug")
         if r < 0.35:
             delay = None
         elif r < 0.5:
@@ -254,7 +257,7 @@ class Gen:
 def oracle_tokens(log: list) -> str:
     seen = []
     for (step, el, att, err, delay) in log:
-        ent = f"{enc.step_id(step)} {enc.num(el)} {att} {enc.exc(err)} {enc.num(delay)}"
+        ent = f"{enc.step_id(step)} {enc.num(el)} {att} {enc.exc(err)} {'X' if delay == 'RAISE' else enc.num(delay)}"
         if ent not in seen:
             seen.append(ent)
     return "P " + enc.lst(seen)
@@ -286,6 +289,11 @@ def run_pair(g: Gen, illformed: bool) -> tuple[list[str], list[str], dict]:
         info["cmds"] = [type(c).__name__ for c in cmds]
     except (ValueError, KeyError, IndexError):
         out = "crash"
+    except RuntimeError as e:
+        if "policy bug" not in str(e):
+            raise
+        out = "crash"
+        info["policy_raised"] = True
     ops.append(f"reduce {enc.num(now)} {oracle_tokens(g.pol_log)} {enc.tick(tk)}")
     outs.append(out)
     info["tick"] = type(tk).__name__
